@@ -114,6 +114,7 @@ theorem eq345_honest (hq : 0 < q) (k base : Nat) (π : Equiv.Perm (Fin k)) (pi :
 theorem bindX_honest (hq : 0 < q) (k g h : Nat) (pi beta X Y : Nat → Nat) (R : PairRand) (θ rho : Nat → Nat)
     (lam t c i : Nat) : bindX q g (pairProverView q k g h pi beta X Y R θ rho lam t c) i = true := by
   unfold bindX
+  simp only [pairProverView]
   rw [beq_iff_eq, eq_iff_cast_eq _ _ (lt_of_mul hq _ _) (lt_of_add hq _ _)]
   simp only [pairProverView, pairR, pairB, pairA, pairU, add_cast, mul_cast, sub_cast hq]
   ring
@@ -121,6 +122,7 @@ theorem bindX_honest (hq : 0 < q) (k g h : Nat) (pi beta X Y : Nat → Nat) (R :
 theorem bindY_honest (hq : 0 < q) (k g h : Nat) (pi beta X Y : Nat → Nat) (R : PairRand) (θ rho : Nat → Nat)
     (lam t c i : Nat) : bindY q (pairProverView q k g h pi beta X Y R θ rho lam t c) i = true := by
   unfold bindY
+  simp only [pairProverView]
   rw [beq_iff_eq, eq_iff_cast_eq _ _ (lt_of_mul hq _ _) (lt_of_add hq _ _)]
   simp only [pairProverView, pairS, pairR, pairB, pairC, pairD, add_cast, mul_cast, sub_cast hq]
   ring
